@@ -506,6 +506,31 @@ where
         }
         s.query(lo, hi, 2, -1, 0, true);
     }
+    // 7: clear and clock restart after lists were drained by expiry (not by the clear)
+    {
+        let mut s: SegSession<R> = SegSession::open(&mut *tr, lo, hi);
+        for b in [0, nb / 2, nb - 1] {
+            let (a, z) = bucket(b);
+            s.insert(a, z, 50);
+            s.insert(a, a, 60);
+        }
+        s.insert(lo, hi, 55);
+        s.query(lo, hi, 100, -1, 0, true); // everything has expired: every scanned list is drained
+        s.clear();
+        for b in [0, nb / 2, nb - 1] {
+            let (a, z) = bucket(b);
+            s.insert(a, z, 10);
+            s.insert(a, a, 30);
+        }
+        s.insert(lo, hi, 10);
+        for t in [5, 20, 40] {
+            for b in [0, nb / 2, nb - 1] {
+                let (a, z) = bucket(b);
+                s.query(a, z, t, -1, 0, false);
+            }
+            s.query(lo, hi, t, -1, 0, true);
+        }
+    }
     // 4
     if bulk > 0 {
         let mut s: SegSession<R> = SegSession::open(&mut *tr, lo, hi);
